@@ -118,6 +118,50 @@ void ego(Rng& rng)
             }
         }
 }
+
+// an elastic_integer representation against an operand with a BUILT-IN representation, either operand order:
+// kind s = scaled_integer<T, power<RE, RX>>, kind p = a plain T (lifted to exponent 0).  The representation-level
+// operator lifts the built-in operand with from_value<elastic_integer<_, N>, T> (signedness of T, width of N).
+//   C02w ebs|ebident|ebquot r|l s|p [div|mod] <radix> <LD> <LN> <LE> <T> <RE> <l> <b>
+//        (r: elastic OP built-in, l: built-in OP elastic; <l> is always the elastic operand's representation)
+template<int LD, int RX, bool Quot, class A, class B>
+void ebpair(A const& a, B const& b, auto&& head)
+{
+    head("ebs", "div"); VH_RUN(a / b, print_es)
+    head("ebs", "mod"); VH_RUN(a % b, print_es)
+    head("ebident", ""); VH_RUN(ident(a, b), print_tv)
+    if constexpr (Quot && RX == 2) {
+        head("ebquot", ""); VH_RUN(cnl::quotient(a, b), print_es)
+    }
+}
+
+template<int LD, class LN, int LE, class T, int RE, int RX>
+void ebgo(Rng& rng)
+{
+    using EA = elastic_integer<LD, LN>;
+    using A = scaled_integer<EA, power<LE, RX>>;
+    using B = scaled_integer<T, power<RE, RX>>;
+    using AR = _impl::rep_of_t<EA>;
+    auto lv = evals<LD, LN>(rng);
+    auto rv = vals<T>(rng, 3 * scale_from_env(), sizeof(T) > 4 ? 13 : sizeof(T) > 2 ? 7 : sizeof(T) > 1 ? 3 : 1);
+    for (T s : {T(1), T(2), T(3), T(7), T(10), T(100)}) {
+        push_unique(rv, s);
+        if constexpr (std::is_signed_v<T>) push_unique(rv, T(-s));
+    }
+    for (I l : lv)
+        for (T t : rv) {
+            A a = _impl::from_rep<A>(_impl::from_rep<EA>(AR(l)));
+            B b = _impl::from_rep<B>(t);
+#define BH(SIDE, PS, RE_) [&](char const* kind, char const* op) { \
+        printf("C02w %s " SIDE " " PS " %s%s%d %d %s %d %s %d ", kind, op, *op ? " " : "", RX, LD, tn<LN>().c_str(), LE, tn<T>().c_str(), RE_); \
+        pri(l); putchar(' '); prv(t); fputs(" => ", stdout); }
+            ebpair<LD, RX, true>(a, b, BH("r", "s", RE));
+            ebpair<LD, RX, true>(b, a, BH("l", "s", RE));
+            ebpair<LD, RX, false>(a, t, BH("r", "p", 0));
+            ebpair<LD, RX, false>(t, a, BH("l", "p", 0));
+#undef BH
+        }
+}
 #endif
 
 #if defined(SEC_C02O)
